@@ -5,7 +5,6 @@ From Coq Require Import ZArith List Bool Lia ZifyBool.
 From V Require Import Base.Int Base.IO Base.Utf8 Model.Scan Model.Rfc3339 Proofs.Utf8 Proofs.Scan.
 Import ListNotations.
 Open Scope Z_scope.
-Set Default Timeout 30.
 
 Lemma digit_char n : is_ascii_digit (48 + n mod 10) = true.
 Proof. unfold is_ascii_digit. pose proof (Z.mod_pos_bound n 10 ltac:(lia)). lia. Qed.
